@@ -47,6 +47,14 @@ func (lrw *limitedResponseWriter) Write(b []byte) (int, error) {
 		lrw.ensureHeaderWritten()
 		return lrw.ResponseWriter.Write(b)
 	}
+	if !lrw.limitReached && (lrw.statusCode == http.StatusNoContent || lrw.statusCode == http.StatusNotModified) {
+		// Likewise behind a status that has no body: net/http refuses the write
+		// (http.ErrBodyNotAllowed), nothing travels, so nothing is limited
+		lrw.ensureHeaderWritten()
+		if !lrw.limitReached {
+			return lrw.ResponseWriter.Write(b)
+		}
+	}
 	if lrw.limitReached {
 		return 0, fmt.Errorf("response body exceeds limit of %d bytes", lrw.limit)
 	}
